@@ -68,6 +68,36 @@ func c14Gens(base func(w *World) []OpGen) func(w *World) []OpGen {
 				ev.Fault = "ctl.esm_execute"
 				return ev
 			}},
+			// once the shutdown has been executed, keep asking for new debt with requests that would be perfectly acceptable
+			// otherwise (an amount well inside the vault's room), so that only the shutdown guard can refuse them
+			OpGen{"ctl.post_esm_draw", 10, func(w *World, r *Rng) *Event {
+				if w.Cdp == nil || w.Cfg.K("esm") == 0 {
+					return nil
+				}
+				ctx := w.Ctx()
+				if st, found := w.App.EsmKeeper.GetESMStatus(ctx, w.Cdp.AppID); !found || !st.Status {
+					return nil
+				}
+				for tries := 0; tries < 6; tries++ {
+					a := w.cdpUser(r)
+					prod := w.pickProduct(r, false)
+					v, ok := w.userVault(a, prod)
+					if !ok {
+						continue
+					}
+					max, ok := w.maxDebtFor(prod, v.AmountIn)
+					if !ok {
+						continue
+					}
+					room := max.Sub(v.AmountOut).Sub(v.InterestAccumulated).Sub(v.ClosingFeeAccumulated)
+					if room.LT(sdk.NewInt(100)) {
+						continue
+					}
+					amt := room.MulRaw(r.Range(1, 50)).QuoRaw(100)
+					return w.TxEvent("vault.draw", a, &vaulttypes.MsgDrawRequest{From: a.Bech(), AppId: prod.AppID, ExtendedPairVaultId: prod.ExtID, UserVaultId: v.Id, Amount: posInt(amt)})
+				}
+				return nil
+			}},
 		)
 		return g
 	}
@@ -113,6 +143,7 @@ type c14Pre struct {
 	withdraw    bool
 	breaker     bool
 	esm         bool
+	klswRecord  bool
 	coolOffOver bool
 	needPrice   bool
 	priceOK     bool
@@ -203,8 +234,9 @@ func (o *c14Oracle) classify(w *World, m sdk.Msg) c14Pre {
 	if p.class == c14None {
 		return p
 	}
-	ks, _ := w.App.EsmKeeper.GetKillSwitchData(ctx, p.app)
+	ks, hasKs := w.App.EsmKeeper.GetKillSwitchData(ctx, p.app)
 	p.breaker = ks.BreakerEnable
+	p.klswRecord = hasKs
 	if st, found := w.App.EsmKeeper.GetESMStatus(ctx, p.app); found && st.Status {
 		p.esm = true
 		p.coolOffOver = ctx.BlockTime().After(st.EndTime)
@@ -295,6 +327,13 @@ func (o *c14Oracle) After(w *World, ev *Event, res Result) *Violation {
 	}
 	if p.esm {
 		w.Stats.Probe("c14.message_after_esm")
+		if p.mints {
+			w.Stats.Probe("c14.mint_attempt_after_esm")
+			if !p.klswRecord {
+				// the guards read two records (shutdown status, kill-switch data); the app has only the first
+				w.Stats.Probe("c14.mint_attempt_after_esm_without_kill_switch_record")
+			}
+		}
 		w.Stats.Transition("esm:" + p.name)
 		if p.mints && ok {
 			return &Violation{Property: "C14", OracleID: "c14.esm", Signature: "debt_minted_after_shutdown:" + p.name,
